@@ -42,6 +42,9 @@ func Dump(p *ir.Program, spec string) {
 		}
 	}
 	dump(fn)
+	eff := ir.DefaultEffects(p)
+	sm := eff.Summarize(fn)
+	fmt.Printf("== effects: params=%v global=%q retFresh=%v\n", sm.Params, sm.Global, sm.RetFresh)
 }
 
 // helper: names of functions
